@@ -49,9 +49,13 @@ Inductive case :=
   | KCalcMA (calls : list (Q * Q)) (bases : list Q)
   | KCalcSA (right : bool) (calls : list (Q * Q)) (bases : list Q)
   (* LinearAverageRateTaxScale.calc *)
-  | KCalcLA (calls : list (Q * Q)) (bases : list Q) (modes : list Z).
+  | KCalcLA (calls : list (Q * Q)) (bases : list Q) (modes : list Z)
+  (* a sequence of operations on ONE scale object: each observing step is given with the
+     bracket list the object must have at that point (calls since the last in-place
+     transformation applied to the transformed brackets) *)
+  | KSeq (steps : list case).
 
-Definition run (c : case) : obs :=
+Fixpoint run (c : case) : obs :=
   match c with
   | KBuild calls => oscale (build calls)
   | KIndices eps f rd calls bases => ores (olist OZ) (bracket_indices eps f rd (build calls) bases)
@@ -63,4 +67,5 @@ Definition run (c : case) : obs :=
   | KCalcSA rgt calls bases => olist OQ (calc_single_amount rgt (build calls) bases)
   | KCalcLA calls bases modes =>
       ores (fun l => OL (ovals modes l)) (calc_linear_average (to_escale (build calls)) bases)
+  | KSeq steps => OL (map run steps)
   end.
